@@ -599,7 +599,7 @@ META = {
                    "boundary prefix across frames; finding no (further) byte in the buffer at hand always leads to another pull before a format error or "
                    "completion is concluded (empty frames are neutral, look-ahead beyond the buffer is undecided); a token longer than one byte is never "
                    "searched for inside a single frame; the scan over candidate delimiter positions ends only by exhaustion or a match. Breaking any of "
-                   "them makes the outcome depend on where the transport cuts the frames.",
+                   "them makes the outcome depend on where the transport cuts the frames. Round 4: in the body collectors a length hint never decides whether another frame is pulled (R9).",
     "not_decided": ["the schedule / partition quantifier itself", "Pending wake-up orders", "parser state equivalence after arbitrary prefixes",
                     "plain streamed bodies (pass-through, see C08.R6)", "buffered XML bodies beyond R9 (collection delegated to http_body_util::BodyExt::collect)"],
     "assumptions": ["rustc nightly MIR construction", "memchr / memchr_iter return positions of the searched byte"],
